@@ -10,6 +10,7 @@ CAP_UNIT = 8  # demand k -> k/8, vehicle capacity cap/8 (dyadic: float arithmeti
 
 
 class SDVRP(Adapter):
+    reward_from_actions = True
     """Split-delivery VRP.  inst: N, D, dem[1..N], cap (+ pts, grid).  Families: all demand
     vectors over a small value set x several capacities, so that routes fill the vehicle
     exactly (used == cap), a customer is split over two or three loads (dem > remaining, and
